@@ -10,7 +10,7 @@ import copy
 import json
 from urllib.parse import urlsplit, urlencode
 
-from vcheck import Machinery, pmap
+from vcheck import Machinery, pmap, guarded
 
 
 def _cfg(maxact, maxconns, emit, props=True):
@@ -185,6 +185,7 @@ DATA = {
 }
 
 
+@guarded(lambda m: (m, []))
 def replay_history(hist):
     e = _env()
     ch = e['ch']
